@@ -604,6 +604,31 @@ def run(ctx: Context, rep) -> None:
                        short(r.value, 30) for r in rets if r.value is not None),
                    message="a validator checks, it does not rewrite")
     rep.floor("C20.validators", n_val, 2, "validators")
+    # ... and the set of refusing validators is the recorded version's: a
+    # validator the reference does not have (under any name: renamed ones
+    # are mapped back by their body) that can raise refuses, on load,
+    # descriptions this version recorded before
+    from sa.inline import REFERENCE as _REF, MOVED as _MOVED
+    for ci in model_classes(ctx).values():
+        for m in ci.methods.values():
+            if isinstance(m.node, ast.Lambda) or not any(
+                    d.rsplit(".", 1)[-1].split("(")[0] in (
+                        "field_validator", "model_validator", "validator")
+                    for d in m.decorators):
+                continue
+            fq_ = f"{ci.module.name}:{m.qualname}"
+            known = fq_ in _REF or fq_ in _MOVED
+            raises = [n_ for n_ in m.body_nodes()
+                      if isinstance(n_, (ast.Raise, ast.Assert))]
+            rep.ob("C20.validators", known or not raises,
+                   loc=m.loc(raises[0]) if raises and not known else m.loc(),
+                   where=m.qualname,
+                   construct=("validator of the recorded version" if known
+                              else "new validator" + (
+                                  " that raises" if raises else
+                                  " that cannot refuse")),
+                   message="a new refusing validator of a persisted model "
+                   "makes descriptions recorded before unloadable")
     # a validator pydantic does not register is no validator; a serializer
     # rewrites what is persisted
     for ci in model_classes(ctx).values():
